@@ -10,15 +10,18 @@ THEOREM_FILE = "Props/C09.v"
 HARNESS_ARGS = ["sim"]
 PER_SHARD = 8
 LEVEL_TEXT = ("Coq theorems over a Gallina model of exec_command_unregister / unregister_service / "
-              "exec_command_unregister_resend / cleanup and the responder loop around them: the status reply is OK exactly "
-              "for a registered lower-cased full name and the service is removed; the goodbye packets are characterised "
-              "(per interface and family with an address in the subnet: PTR, subtype PTR, SRV, TXT, addresses, TTL 0; the "
-              "same packet again 120 ms later; shutdown says goodbye once for every service); an unregistered service is "
-              "never spoken for again and other services are untouched. The executable statement chk_C09 is proved never "
-              "to reject the model outside three decidable classes (refutations proved) and is run as a monitor on the "
-              "real daemon thread's packets and replies in the simulated world")
-TECHNIQUE = ("machine-checked proof in Coq (functional specification of the goodbye, frame property of unregister, one-step "
-             "refinement of the executable statement) + model/implementation correspondence on simulated-daemon histories")
+              "exec_command_unregister_resend / cleanup and the responder loop around them, for every state: the status "
+              "reply is OK exactly for a registered lower-cased full name, exactly one reply, the service is removed and "
+              "every other service, registry and interface untouched; the goodbye is characterised (per interface and "
+              "family with an address in the subnet: PTR, subtype PTR, SRV, TXT, addresses, all TTL 0), equals the goodbye "
+              "the property asks for when the service was not renamed and is announced wherever it has addresses, is queued "
+              "once for now + 120 and repeated unchanged; shutdown says goodbye once per service and leaves nothing to "
+              "repeat; a pending second announcement of an unregistered service does nothing and no query is answered "
+              "without an announced service. The three places where the code departs from the property are proved as "
+              "refutations on witnesses taken from the real daemon. The executable statement chk_C09 (replies, goodbyes, "
+              "silence, judged against the model's state) runs as a monitor on the real daemon thread in the simulated world")
+TECHNIQUE = ("machine-checked proof in Coq (functional specification of the goodbye, frame property of unregister, witnesses "
+             "for the refuted clauses) + model/implementation correspondence on simulated-daemon histories")
 LEVELS = "K6 (real ServiceDaemon thread in the simulated world: register / rename / re-register / unregister / shutdown)"
 RULE = ("simulated histories over 1-3 services and 1-2 interfaces: unregister at every phase (before the first probe, between "
         "probes, at completion, after the first / second announcement), unknown, differently-cased and truncated names, "
@@ -35,11 +38,13 @@ TRUSTED = [
     "modelled, not verified: hash-container orders (sorted before comparison), non-ASCII lower-casing (generators use "
     "case variants of ASCII names only), what the hooks replace, the record cache",
 ]
-PARTIAL = ("chk_C09 judges each iteration against the model's state before it (which services are registered with which "
-           "data, which names were changed); that state is validated against the implementation by the correspondence on "
-           "the same run, not proved equal. Histories keep the interface table constant. Findings in known/C09.json: "
-           "goodbyes carry the pre-rename names; a goodbye is also sent where the service was still probing; the repeated "
-           "IPv4 goodbye leaves on the interface of the last IPv4 send")
+PARTIAL = ("The theorems are single-step statements for every state; that chk_C09 accepts every run of the daemon model "
+           "outside the three classes (in particular that no response ever carries a record of an unregistered service, over "
+           "whole histories) is validated on every generated history by running the monitor on the model's own output, not "
+           "proved. chk_C09 judges each iteration against the model's state before it; that state is validated against the "
+           "implementation by the correspondence on the same run. Histories keep the interface table constant. Findings "
+           "(known/C09.json): goodbyes carry the pre-rename names; a goodbye is also sent where the service was still "
+           "probing; the repeated IPv4 goodbye leaves on the interface of the last IPv4 send")
 
 KNOWN = {11: "C09-goodbye-uses-pre-rename-names", 12: "C09-goodbye-while-probing", 13: "C09-goodbye-while-probing",
          14: "C09-goodbye-repeat-wrong-interface", 15: "C09-goodbye-repeat-wrong-interface",
